@@ -60,6 +60,24 @@ theorem readDim_source (a : Arr) (d : Dim) :
   unfold readDim sourceOf
   cases isAliasRead d <;> cases hl : d.link <;> simp
 
+theorem any_if_singleton {α : Type} (c : Bool) (x : α) (f : α → Bool) :
+    (if c = true then [x] else []).any f = (c && f x) := by
+  cases c <;> simp
+
+theorem column_unc (o : OldProp) : column o "uncertainty" = some (.flt (o.rows.map (·.uncertainty))) := rfl
+theorem column_ref (o : OldProp) : column o "reference" = some (.str (o.rows.map (·.reference))) := rfl
+theorem column_fn (o : OldProp) : column o "filename" = some (.str (o.rows.map (·.filename))) := rfl
+theorem column_enc (o : OldProp) : column o "encoder" = some (.str (o.rows.map (·.encoder))) := rfl
+theorem column_chk (o : OldProp) : column o "checksum" = some (.str (o.rows.map (·.checksum))) := rfl
+
+/-- the names tested before anything is changed are exactly the names of the properties the rules create -/
+theorem shape_refusal (run : Nat) (ps : List (Path × PObj)) (p : Path) (o : OldProp) :
+    nameTakenG Gen.refusal ps p o = some (nameTaken ps (converted run p o)) := by
+  unfold nameTaken converted Gen.refusal
+  simp only [nameTakenG, column_unc, column_ref, column_fn, column_enc, column_chk, Test.eval, List.append_assoc, List.cons_append, List.nil_append, List.tail_cons,
+    List.any_append, List.any_map, Function.comp_def]
+  simp only [any_if_singleton, Bool.or_false]
+
 theorem applyRule_str (run : Nat) (p : Path) (o : OldProp) (m : NewProp) (es : List (Path × PObj)) (b : Bool)
     (field suf : String) (sel : OldRow → String) (hc : column o field = some (.str (o.rows.map sel))) :
     applyRule run p o ⟨m, es, b⟩ ⟨field, .anyTruthy, .prop suf "str", false⟩ =
